@@ -137,6 +137,48 @@ def exhaustive(quick):
                 yield f"e {c} {t} {hx(a)} {hx(b)}"
 
 
+def long_cases(rng, quick):
+    """RDATA of 255..65535 octets (the u16 length prefix of RdataSetOwned needs its high octet), names at the
+    255-octet limit and one octet over it (invalid: must fall back to octet comparison), in pairs and in sets."""
+    def nm(last, up):
+        ls = [[ord(ch)] * n for ch, n in (("a", 63), ("b", 63), ("c", 63), ("d", last))]
+        if up:
+            ls = [[x ^ 0x20 for x in l] for l in ls]
+        return wire(ls)
+    mx, MX_, tl, TL = nm(61, False), nm(61, True), nm(62, False), nm(62, True)      # 255 / 256 octets
+    z20 = [0] * 20
+    fams = {
+        (IN, 2): [mx, MX_, tl, TL, mx + [0]],
+        (IN, 15): [[0, 1] + mx, [0, 1] + MX_, [0, 2] + mx, [0, 1] + tl, [0, 1] + TL],
+        (IN, 33): [[0] * 6 + mx, [0] * 6 + MX_, [0] * 5 + [1] + MX_, [0] * 6 + tl, [0] * 6 + TL],
+        (CH, 1): [mx + [0, 1], MX_ + [0, 1], MX_ + [0, 2], tl + [0, 1], TL + [0, 1]],
+        (IN, 14): [mx + mx, MX_ + mx, mx + MX_, mx + tl, MX_ + tl, mx + TL],
+        (IN, 6): [mx + mx + z20, MX_ + MX_ + z20, MX_ + mx + z20[:-1] + [1], mx + tl + z20, MX_ + tl + z20, mx + mx + z20 + [0]],
+    }
+    for (c, t), items in fams.items():
+        for a in items:
+            for b in items:
+                yield f"e {c} {t} {hx(a)} {hx(b)}"
+        yield f"s {c} {t} " + ",".join(hx(x) for x in items + items[::-1])
+        yield f"l {c} {t} {hx(items[0])} {hx(items[1])} {hx(items[2])}"
+    for _ in range(25 if quick else 500):
+        c, t = rng.choice([(IN, 10), (IN, 16), (IN, 99), (IN, 2), (IN, 15), (IN, 6)])
+        lens = [rng.choice([255, 256, 257, 300, 511, 512, 513, 1024, 65535 if rng.random() < 0.08 else 700])
+                for _ in range(rng.randint(2, 3))]
+        items = [[rng.choice([0, 1, 0x61, 0x41, 0xFF]) for _ in range(L)] for L in lens]
+        seq = []
+        for _ in range(rng.randint(2, 6)):
+            x = list(rng.choice(items))
+            r = rng.random()
+            if r < 0.25:
+                x[-1] ^= 1
+            elif r < 0.4:
+                x[rng.randrange(len(x))] ^= 0x20
+            seq.append(x)
+        yield f"s {c} {t} " + ",".join(hx(x) for x in seq)
+        yield f"e {c} {t} {hx(seq[0])} {hx(seq[-1])}"
+
+
 def gen(rng, tier):
     quick = tier == "quick"
     # the witness of the repaired defect, both directions, and its MX/SRV analogues
@@ -146,6 +188,7 @@ def gen(rng, tier):
     yield "s 1 2 01610009,016100,014100"
     yield "s 1 2 016100,01610009,014100"
     yield from exhaustive(quick)
+    yield from long_cases(rng, quick)
     n = 6000 if quick else 150000
     for _ in range(n):
         c, t, items = group(rng)
@@ -182,7 +225,7 @@ CHECK = {
     "property": "C19",
     "props": "Props/C19.v",
     "theorems": ["c19_spec_refl", "c19_spec_sym", "c19_spec_trans", "c19_dispatch", "c19_name_eq",
-                 "c19_covered_partial", "c19_char_partial", "c19_laws_partial", "c19_set", "c19_set_partial",
+                 "c19_char", "c19_total", "c19_laws", "c19_octetwise", "c19_set", "c19_set_meaning", "c19_insert",
                  "c19_sym_refuted_prefix"],
     "allowed_axioms": [],
     "correspondence": {"impl_bin": "impl_c19", "extract": "Extract/ExC19.v", "driver": "run_c19.ml"},
@@ -196,7 +239,8 @@ CHECK = {
              "19/20/21-octet SOA tails); seeded groups: a pool of 2-4 names (letters, '@[`{' neighbours of the letter ranges, 0x20-flipped "
              "non-letters, 63-octet labels), RDATA built from the pool for 27 (class,type) combinations incl. other-class and unknown "
              "types, variants by re-casing, trailing junk, truncation, single-octet changes; pairs in both orders, triples, and "
-             "sequences of 1-8 members for the sets; the oracle is the independent characterisation spec_equals / nodup_by; "
+             "sequences of 1-8 members for the sets; names at the 255-octet limit and one over it (pairs, triples, sets) for NS, MX, SRV, CH A, "
+             "MINFO, SOA and sets/pairs of 255..65535-octet RDATA (both octets of the u16 length prefix); the oracle is the independent characterisation spec_equals / nodup_by; "
              "non-trivial = equal-but-not-identical or unequal pairs, triples with an equal pair, sets that dropped a member; "
              "distinct = distinct case line"),
     "trusted_base": [
@@ -206,7 +250,7 @@ CHECK = {
         "correspondence: checks/c19.py generators, harness/src/bin/impl_c19.rs (catch_unwind), ocaml/run_c19.ml, line diff in tools/qv.py",
         "tools/gen/rdata.py re-extracts the equals dispatcher into Gen/RdataTables.v",
         "the hand-written bodies of names_equal/test_n_name_fields/equals_as_* and of RdataSetOwned in Model/RdataM.v, Model/RdataSetM.v "
-        "(differentially tested); for SOA, MINFO, MX, CH A, IN SRV the link model = characterisation is tested, not proved",
+        "(differentially tested)",
         "the characterisation as transcribed in Spec/RdataEqS.v",
         "not verified: the unsafe slice casts of RdataSet, Vec growth, native-endian u16 (the model is parametric in the byte order)",
     ],
@@ -218,11 +262,13 @@ MANIFEST = {
     "level_text": ("Coq theorems (no axioms): the characterisation of RDATA equality (octet-wise, names of the pre-RFC 3597 name-bearing "
                    "types label-wise case-insensitive when both RDATA are valid) is an equivalence for every class and type; the equals "
                    "dispatcher re-extracted from the source sends exactly those types to name-aware handlers; the model of the repaired "
-                   "Rdata::equals equals the characterisation (hence is total, reflexive, symmetric, transitive) for every (class,type) "
-                   "except SOA, MINFO, MX, CH A, IN SRV; RdataSetOwned::from_iter is nodup_by of equals in insertion order for either byte "
-                   "order. The pre-fix code is refuted (asymmetric). For the five remaining handlers the same statement is checked by the "
-                   "differential run (~31k quick cases incl. the three laws evaluated on the implementation) against the proved-equivalence oracle."),
-    "level_note": ("Partial: model = characterisation is not proved for equals_as_{soa,minfo,mx,in_srv,ch_a}. "
+                   "Rdata::equals equals the characterisation for EVERY class and type and every pair of octet strings (all seven handlers: "
+                   "names_equal, equals_as_{soa,minfo,mx,in_srv,ch_a}, bitwise), hence is total (never panics), reflexive, symmetric and "
+                   "transitive on the model itself and octet-wise whenever either RDATA is malformed; RdataSetOwned::from_iter is nodup_by "
+                   "of that characterisation in insertion order for either byte order, with no hypothesis on equals. The pre-fix code is "
+                   "refuted (asymmetric). The differential run (~31k quick cases incl. the three laws evaluated on the implementation) ties "
+                   "the model to the crate."),
+    "level_note": ("Full statement proved on the model. "
                    "Trusted: Coq kernel, extraction, hand-written model bodies (differentially tested), table extractor."),
     "technique": "machine-checked proof in Coq (equality = characterisation, hence an equivalence; set = nodup) + model/implementation correspondence check",
     "design_ref": "DESIGN.md §4 C19",
